@@ -45,7 +45,7 @@ reg('C16', engine='h_constraint',
     rule='one case = (manifold from the zoo with random parameters, Projected | Atlas | TangentBundle, delta in [0.01,0.5], lambda in '
          '[1.5,5], tolerance in [1e-6,1e-3], atlas parameters, 0-4 ambient-ball obstacles, one of RRT/RRTConnect/PRM/KPIECE1/BIT*): '
          '60 sampler triples, 10 near + 4 far + across-obstacle pairs (interpolate on a t grid, discreteGeodesic in both modes), one '
-         'planner run under an evaluation-counting termination condition (per-case sizes are the same in both tiers, the thorough tier runs ten times as many cases); non-trivial = a successful geodesic or a solution path with '
+         'planner run under an evaluation-counting termination condition (per-case sizes are the same in both tiers, the thorough tier runs 7.5 times as many cases); non-trivial = a successful geodesic or a solution path with '
          '>= 3 states was examined; distinct = (manifold, space, planner, delta/lambda/tolerance bucket) hash',
     floors={'quick': {'c16_uniform_samples': 100000, 'c16_near_samples': 100000, 'c16_gaussian_samples': 100000,
                       'c16_interpolated_states': 150000, 'c16_geodesics_ok': 30000, 'c16_geodesic_states': 400000,
